@@ -172,6 +172,14 @@ def xmap(case, x):
     m = case.get("xmap")
     if m is None:
         return x
+    return _xmap1(m, x)
+
+
+def _xmap1(m, x):
+    if m["kind"] == "chain":
+        for mm in m["maps"]:
+            x = _xmap1(mm, x)
+        return x
     if m["kind"] == "embed":
         full = np.empty(m["n_full"])
         fixed = {int(k): v for k, v in m["fixed"].items()}
